@@ -905,7 +905,7 @@ static void InitFields(void) {
     AddCobr("TESTG", 0x21, False);
     AddCobr("TESTGE", 0x23, False);
     AddCobr("TESTO", 0x27, False);
-    AddCobr("TESTNO", 0x27, False);
+    AddCobr("TESTNO", 0x20, False);
 
     CtrlOrders = (FixedOrder*)malloc(sizeof(FixedOrder) * CtrlOrderCnt);
     InstrZ     = 0;
